@@ -315,6 +315,10 @@ func verifMain(args []string) int {
 	if len(args) >= 1 && args[0] == "serve" {
 		return serveStdio()
 	}
+	if len(args) == 2 && args[0] == "dumptags" {
+		n, _ := strconv.Atoi(args[1])
+		return dumpTags(n)
+	}
 	if len(args) != 6 || args[0] != "gen" {
 		fmt.Fprintln(os.Stderr, "usage: gen <prop> <quick|thorough> <seed> <n> <workdir>")
 		return 2
